@@ -127,7 +127,13 @@ def split_values(per, flat_values):
 
 def real_inout(nodes):
     from psyclone.psyir.tools.call_tree_utils import CallTreeUtils
-    rw = CallTreeUtils().get_in_out_parameters(list(nodes))
+    try:
+        rw = CallTreeUtils().get_in_out_parameters(list(nodes))
+    except NotImplementedError:
+        raise
+    except Exception as e:                                        # noqa: BLE001
+        err = "error:" + type(e).__name__      # no lists at all: nothing recorded
+        return [err], [err]
     return (sorted(str(s) for s in rw.signatures_read), sorted(str(s) for s in rw.signatures_written))
 
 
@@ -176,10 +182,10 @@ def real_acc_clauses(parsed, i, j, enter_data=False):
         ACCDataTrans().apply(nodes)
     except TransformationError:
         return "refuse"
-    except IndexError:
-        if not nodes:
+    except Exception as e:                                        # noqa: BLE001
+        if not nodes and isinstance(e, IndexError):
             return "refuse"       # apply([]) dies on node_list[0]: no directive either
-        raise
+        return "error:" + type(e).__name__     # never predicted by the model -> disagreement
     d = r2.walk(ACCDataDirective)[0]
     d.lower_to_language_level()
     head = FortranWriter()(d).splitlines()[0].strip().lower()
